@@ -180,16 +180,49 @@ def run(ctx):
     # E9 treats validate_comp_ids as the atom 'CompIDs match': its body must be that conjunction, and the call site must bind 49 -> target side, 56 -> sender side
     vc = repo.func("FIXSession.validate_comp_ids")
     params = [a.arg for a in vc.args.args][1:]
-    rets = [n for n in walk_no_nested(vc) if isinstance(n, ast.Return)]
-    pairs = set()
-    conj = len(rets) == 1 and isinstance(rets[0].value, ast.BoolOp) and isinstance(rets[0].value.op, ast.And)
-    if conj:
-        for c in rets[0].value.values:
-            if isinstance(c, ast.Compare) and len(c.ops) == 1 and isinstance(c.ops[0], ast.Eq):
-                pairs.add(frozenset((unparse(c.left), unparse(c.comparators[0]))))
+    # semantic form: on every path to a return whose value can be truthy, both equalities are established (by the branch
+    # tests passed and by the returned expression itself)
+    from sa.guards import facts as _facts, edge_facts as _edge_facts, resolved as _resolved
+    vg = CFG(vc)
     want = {frozenset(("self.sender_comp_id", "sender_comp_id")), frozenset(("self.target_comp_id", "target_comp_id"))}
-    ctx.instance(R3, "FIXSession.validate_comp_ids[both CompIDs must match]", conj and pairs == want and set(params) == {"target_comp_id", "sender_comp_id"},
-                 f"validate_comp_ids is not `sender == sender and target == target` (found {sorted(map(sorted, pairs))}): a message for / from another party passes the identity check",
+
+    def _eq_pairs(fs):
+        out = set()
+        for a, tv in fs:
+            if tv and " == " in a:
+                l_, r_ = a.split(" == ", 1)
+                out.add(frozenset((l_.strip("()"), r_.strip("()"))))
+        return out
+
+    def _res_facts(e, truth):
+        return _facts(_resolved(vc, e), truth) | _facts(e, truth)
+    ret_nodes = [n for n in vg.nodes if n.kind == "stmt" and isinstance(n.ast, ast.Return)]
+    bad_path = None
+    n_paths = 0
+    pairs = set()
+    for rn in ret_nodes:
+        v = rn.ast.value
+        if v is None or (isinstance(v, ast.Constant) and not v.value):
+            continue
+        for path in vg.paths(vg.entry, [rn.id], exc=False):
+            n_paths += 1
+            fs = set()
+            for a_, b_ in zip(path, path[1:]):
+                for d, lab in vg.succs(a_, False):
+                    if d == b_ and vg.nodes[a_].kind == "test":
+                        fs |= _res_facts(vg.nodes[a_].ast, lab == "true") if lab in ("true", "false") else set()
+            if not (isinstance(v, ast.Constant) and v.value):
+                fs |= _res_facts(v, True)
+            if any((a, not tv) in fs for a, tv in fs):
+                continue  # the value cannot be truthy on this path
+            got = _eq_pairs(fs)
+            pairs |= got
+            if not want <= got and bad_path is None:
+                bad_path = (rn, sorted(map(sorted, got)))
+    conj = bool(ret_nodes) and n_paths > 0 and bad_path is None
+    ctx.instance(R3, "FIXSession.validate_comp_ids[both CompIDs must match]", conj and set(params) == {"target_comp_id", "sender_comp_id"},
+                 f"validate_comp_ids can return a true value without both `sender == sender` and `target == target` being established (on the path to "
+                 f"{loc(bad_path[0].ast) if bad_path else '?'} only {bad_path[1] if bad_path else sorted(map(sorted, pairs))}): a message for / from another party passes the identity check",
                  loc(vc))
     vi = repo.func("AsyncFIXConnection._validate_integrity")
     for c in walk_no_nested(vi):
